@@ -792,6 +792,12 @@ func (b *BlockWise[C]) processReceivedMessage(w *responsewriter.ResponseWriter[C
 		szx = getSzx(szx, maxSzx)
 		// if there is no more then just forward req to next handler
 		if !more {
+			if num > 0 {
+				// A final block that is not the first one needs the previous blocks. Without them
+				// (e.g. a duplicate or replay of the last block of a finished transfer) the body
+				// cannot be reconstructed and must not be presented as complete.
+				return fmt.Errorf("cannot process final block(%v) of message(%v): previous blocks are missing", num, r)
+			}
 			next(w, r)
 			return nil
 		}
